@@ -14,6 +14,7 @@ import (
 	"strings"
 	"sync/atomic"
 	"testing"
+	"time"
 
 	ebu "github.com/jilio/ebu"
 
@@ -62,11 +63,15 @@ func TestC10(t *testing.T) {
 	defer restoreOpener()
 	defer func() { run.Count("durable_appends_with_the_reply_lost_after_commit", lostAcks.Load()) }()
 	defer func() { run.Count("appended_documents_of_1_to_3_MiB", bigDocs.Load()) }()
+	defer func() { run.Count("streams_ranged_a_second_time_after_an_early_stop", rerangedStreams.Load()) }()
 	scratch := os.Getenv("VERIF_SCRATCH")
 	if scratch == "" {
 		scratch = t.TempDir()
 	}
 	os.MkdirAll(scratch, 0o755)
+	if run.Shard == 0 {
+		longLog(run, scratch)
+	}
 	if be, err := faultsql.GenuineBusy(scratch); err == nil {
 		busyErr = be
 	}
@@ -171,6 +176,63 @@ func TestC10(t *testing.T) {
 	}
 }
 
+// longLog: a log longer than any round number a store might think of as "a lot" (10 300 events):
+// Read with no limit, a negative limit or a limit above the length returns everything that follows
+// the offset, and the stream does too.
+func longLog(run *vk.Run, scratch string) {
+	const n = 10300
+	ctx := context.Background()
+	for _, kind := range []string{"memory", "sqlite-mem", "sqlite-file"} {
+		st, err := stores.Open(kind, scratch)
+		if err != nil {
+			panic(err)
+		}
+		offs := make([]ebu.Offset, 0, n)
+		for i := 1; i <= n; i++ {
+			off, err := st.Store.Append(ctx, &ebu.Event{Type: "c10.long", Data: json.RawMessage(fmt.Sprintf(`{"n":%d}`, i)), Timestamp: time.Unix(int64(i), 0)})
+			if err != nil {
+				panic(err)
+			}
+			offs = append(offs, off)
+		}
+		for _, q := range []struct {
+			after, limit int
+		}{{0, 0}, {0, -1}, {0, 20000}, {100, 0}, {0, n + 1}, {250, -7}, {0, 10001}} {
+			from := ebu.OffsetOldest
+			if q.after > 0 {
+				from = offs[q.after-1]
+			}
+			evs, _, err := st.Store.Read(ctx, from, q.limit)
+			want := n - q.after
+			if q.limit > 0 && q.limit < want {
+				want = q.limit
+			}
+			run.Case(fmt.Sprintf("long-log|%s|after%d|limit%d", kind, q.after, q.limit), true)
+			ok := err == nil && len(evs) == want
+			if ok && want > 0 {
+				ok = string(evs[0].Data) == fmt.Sprintf(`{"n":%d}`, q.after+1) && string(evs[want-1].Data) == fmt.Sprintf(`{"n":%d}`, q.after+want)
+			}
+			if !ok {
+				run.Violation(strings.SplitN(kind, "-", 2)[0]+":long-log-read", fmt.Sprintf("%s store holding %d events: Read(after event %d, limit %d) returned %d events (err %v), %d follow that offset within the limit", kind, n, q.after, q.limit, len(evs), err, want), map[string]any{"store": kind, "after": q.after, "limit": q.limit})
+			}
+		}
+		if sr, ok := st.Store.(ebu.EventStoreStreamer); ok {
+			c := 0
+			for _, err := range sr.ReadStream(ctx, offs[99]) {
+				if err != nil {
+					break
+				}
+				c++
+			}
+			if c != n-100 {
+				run.Violation(strings.SplitN(kind, "-", 2)[0]+":long-log-stream", fmt.Sprintf("%s store holding %d events: ReadStream(after event 100) yielded %d events", kind, n, c), nil)
+			}
+		}
+		st.Close()
+		st.Remove()
+	}
+}
+
 // busReaders reads the store the way a bus does — a plain replay and an upcasting replay with a raw
 // upcaster registered for every stored type. Reading is not an operation of the log: every later
 // Read / ReadStream is still compared with the reference log.
@@ -245,7 +307,7 @@ func doAppend(ctx context.Context, rng *rand.Rand, s *sut, viol violFn, fl *flag
 // lostAckAppend (durable-streams): the server commits the append, the reply is lost (503). Whatever
 // the client makes of that, the event is in the log exactly once: every later read is compared with
 // a reference log that contains it once.
-var lostAcks, bigDocs atomic.Int64
+var lostAcks, bigDocs, rerangedStreams atomic.Int64
 
 func lostAckAppend(ctx context.Context, rng *rand.Rand, s *sut, viol violFn) {
 	e := reflog.Ev{Type: jgen.TypeString(rng), Data: jgen.Doc(rng, true), Time: jgen.Timestamp(rng)}
@@ -439,7 +501,20 @@ func doStream(ctx context.Context, rng *rand.Rand, s *sut, viol violFn) {
 	// a consumer may keep what the stream yields: collect first, compare afterwards
 	var collected []*ebu.StoredEvent
 	endedWithBusy := false
-	for e, err := range st.ReadStream(ctx, from) {
+	stream := st.ReadStream(ctx, from)
+	if !busy && rng.IntN(3) == 0 {
+		// a first pass over the same stream value that looks at a few elements and stops (a consumer
+		// counting, peeking or giving up): the pass that follows is still the whole sequence
+		stop := rng.IntN(4)
+		n := 0
+		for range stream {
+			if n++; n > stop {
+				break
+			}
+		}
+		rerangedStreams.Add(1)
+	}
+	for e, err := range stream {
 		if err != nil {
 			if busy && strings.Contains(err.Error(), "SQLITE_BUSY") {
 				endedWithBusy = true
